@@ -28,6 +28,7 @@ Record rt := mkRt {
   r_tron : bool;
   r_entry : N;
   r_stack : list val;               (* top of stack first *)
+  r_slen : N;                       (* = lenN r_stack, kept so that the limit test is O(1) *)
   r_vars : varstore;
   r_state : rstate;
   r_cont : rstate;
@@ -41,58 +42,59 @@ Record rt := mkRt {
 Definition MAX_LINE_LEN : N := 1024.
 
 Definition rt_default : rt :=
-  mkRt (s2l "READY.") listing_empty 0 false program_empty 0 None false 1 [] vars_empty
+  mkRt (s2l "READY.") listing_empty 0 false program_empty 0 None false 1 [] 0 vars_empty
        StIntro StStopped 0 0 (1, 1, 1) [] 0.
 
 (* field updates *)
 Definition set_state (r : rt) (s : rstate) : rt :=
   mkRt (r_prompt r) (r_listing r) (r_snap r) (r_dirty r) (r_prog r) (r_pc r) (r_tr r) (r_tron r) (r_entry r)
-       (r_stack r) (r_vars r) s (r_cont r) (r_cont_pc r) (r_col r) (r_rand r) (r_fns r) (r_ent r).
+       (r_stack r) (r_slen r) (r_vars r) s (r_cont r) (r_cont_pc r) (r_col r) (r_rand r) (r_fns r) (r_ent r).
 Definition set_cont (r : rt) (s : rstate) : rt :=
   mkRt (r_prompt r) (r_listing r) (r_snap r) (r_dirty r) (r_prog r) (r_pc r) (r_tr r) (r_tron r) (r_entry r)
-       (r_stack r) (r_vars r) (r_state r) s (r_cont_pc r) (r_col r) (r_rand r) (r_fns r) (r_ent r).
+       (r_stack r) (r_slen r) (r_vars r) (r_state r) s (r_cont_pc r) (r_col r) (r_rand r) (r_fns r) (r_ent r).
 Definition set_cont_pc (r : rt) (a : N) : rt :=
   mkRt (r_prompt r) (r_listing r) (r_snap r) (r_dirty r) (r_prog r) (r_pc r) (r_tr r) (r_tron r) (r_entry r)
-       (r_stack r) (r_vars r) (r_state r) (r_cont r) a (r_col r) (r_rand r) (r_fns r) (r_ent r).
+       (r_stack r) (r_slen r) (r_vars r) (r_state r) (r_cont r) a (r_col r) (r_rand r) (r_fns r) (r_ent r).
 Definition set_pc (r : rt) (a : N) : rt :=
   mkRt (r_prompt r) (r_listing r) (r_snap r) (r_dirty r) (r_prog r) a (r_tr r) (r_tron r) (r_entry r)
-       (r_stack r) (r_vars r) (r_state r) (r_cont r) (r_cont_pc r) (r_col r) (r_rand r) (r_fns r) (r_ent r).
-Definition set_stack (r : rt) (s : list val) : rt :=
+       (r_stack r) (r_slen r) (r_vars r) (r_state r) (r_cont r) (r_cont_pc r) (r_col r) (r_rand r) (r_fns r) (r_ent r).
+Definition set_stack_len (r : rt) (s : list val) (n : N) : rt :=
   mkRt (r_prompt r) (r_listing r) (r_snap r) (r_dirty r) (r_prog r) (r_pc r) (r_tr r) (r_tron r) (r_entry r)
-       s (r_vars r) (r_state r) (r_cont r) (r_cont_pc r) (r_col r) (r_rand r) (r_fns r) (r_ent r).
+       s n (r_vars r) (r_state r) (r_cont r) (r_cont_pc r) (r_col r) (r_rand r) (r_fns r) (r_ent r).
+Definition set_stack (r : rt) (s : list val) : rt := set_stack_len r s (lenN s).
 Definition set_vars (r : rt) (v : varstore) : rt :=
   mkRt (r_prompt r) (r_listing r) (r_snap r) (r_dirty r) (r_prog r) (r_pc r) (r_tr r) (r_tron r) (r_entry r)
-       (r_stack r) v (r_state r) (r_cont r) (r_cont_pc r) (r_col r) (r_rand r) (r_fns r) (r_ent r).
+       (r_stack r) (r_slen r) v (r_state r) (r_cont r) (r_cont_pc r) (r_col r) (r_rand r) (r_fns r) (r_ent r).
 Definition set_col (r : rt) (c : N) : rt :=
   mkRt (r_prompt r) (r_listing r) (r_snap r) (r_dirty r) (r_prog r) (r_pc r) (r_tr r) (r_tron r) (r_entry r)
-       (r_stack r) (r_vars r) (r_state r) (r_cont r) (r_cont_pc r) c (r_rand r) (r_fns r) (r_ent r).
+       (r_stack r) (r_slen r) (r_vars r) (r_state r) (r_cont r) (r_cont_pc r) c (r_rand r) (r_fns r) (r_ent r).
 Definition set_entry (r : rt) (a : N) : rt :=
   mkRt (r_prompt r) (r_listing r) (r_snap r) (r_dirty r) (r_prog r) (r_pc r) (r_tr r) (r_tron r) a
-       (r_stack r) (r_vars r) (r_state r) (r_cont r) (r_cont_pc r) (r_col r) (r_rand r) (r_fns r) (r_ent r).
+       (r_stack r) (r_slen r) (r_vars r) (r_state r) (r_cont r) (r_cont_pc r) (r_col r) (r_rand r) (r_fns r) (r_ent r).
 Definition set_listing (r : rt) (l : listing) : rt :=
   mkRt (r_prompt r) l (r_snap r) (r_dirty r) (r_prog r) (r_pc r) (r_tr r) (r_tron r) (r_entry r)
-       (r_stack r) (r_vars r) (r_state r) (r_cont r) (r_cont_pc r) (r_col r) (r_rand r) (r_fns r) (r_ent r).
+       (r_stack r) (r_slen r) (r_vars r) (r_state r) (r_cont r) (r_cont_pc r) (r_col r) (r_rand r) (r_fns r) (r_ent r).
 Definition set_dirty (r : rt) (d : bool) : rt :=
   mkRt (r_prompt r) (r_listing r) (r_snap r) d (r_prog r) (r_pc r) (r_tr r) (r_tron r) (r_entry r)
-       (r_stack r) (r_vars r) (r_state r) (r_cont r) (r_cont_pc r) (r_col r) (r_rand r) (r_fns r) (r_ent r).
+       (r_stack r) (r_slen r) (r_vars r) (r_state r) (r_cont r) (r_cont_pc r) (r_col r) (r_rand r) (r_fns r) (r_ent r).
 Definition set_prog (r : rt) (p : program) : rt :=
   mkRt (r_prompt r) (r_listing r) (r_snap r) (r_dirty r) p (r_pc r) (r_tr r) (r_tron r) (r_entry r)
-       (r_stack r) (r_vars r) (r_state r) (r_cont r) (r_cont_pc r) (r_col r) (r_rand r) (r_fns r) (r_ent r).
+       (r_stack r) (r_slen r) (r_vars r) (r_state r) (r_cont r) (r_cont_pc r) (r_col r) (r_rand r) (r_fns r) (r_ent r).
 Definition set_tr (r : rt) (t : option N) : rt :=
   mkRt (r_prompt r) (r_listing r) (r_snap r) (r_dirty r) (r_prog r) (r_pc r) t (r_tron r) (r_entry r)
-       (r_stack r) (r_vars r) (r_state r) (r_cont r) (r_cont_pc r) (r_col r) (r_rand r) (r_fns r) (r_ent r).
+       (r_stack r) (r_slen r) (r_vars r) (r_state r) (r_cont r) (r_cont_pc r) (r_col r) (r_rand r) (r_fns r) (r_ent r).
 Definition set_tron (r : rt) (t : bool) : rt :=
   mkRt (r_prompt r) (r_listing r) (r_snap r) (r_dirty r) (r_prog r) (r_pc r) (r_tr r) t (r_entry r)
-       (r_stack r) (r_vars r) (r_state r) (r_cont r) (r_cont_pc r) (r_col r) (r_rand r) (r_fns r) (r_ent r).
+       (r_stack r) (r_slen r) (r_vars r) (r_state r) (r_cont r) (r_cont_pc r) (r_col r) (r_rand r) (r_fns r) (r_ent r).
 Definition set_fns (r : rt) (f : list (str * (N * N))) : rt :=
   mkRt (r_prompt r) (r_listing r) (r_snap r) (r_dirty r) (r_prog r) (r_pc r) (r_tr r) (r_tron r) (r_entry r)
-       (r_stack r) (r_vars r) (r_state r) (r_cont r) (r_cont_pc r) (r_col r) (r_rand r) f (r_ent r).
+       (r_stack r) (r_slen r) (r_vars r) (r_state r) (r_cont r) (r_cont_pc r) (r_col r) (r_rand r) f (r_ent r).
 Definition set_rand (r : rt) (x : N * N * N) (ent : N) : rt :=
   mkRt (r_prompt r) (r_listing r) (r_snap r) (r_dirty r) (r_prog r) (r_pc r) (r_tr r) (r_tron r) (r_entry r)
-       (r_stack r) (r_vars r) (r_state r) (r_cont r) (r_cont_pc r) (r_col r) x (r_fns r) ent.
+       (r_stack r) (r_slen r) (r_vars r) (r_state r) (r_cont r) (r_cont_pc r) (r_col r) x (r_fns r) ent.
 Definition set_snap (r : rt) (n : N) : rt :=
   mkRt (r_prompt r) (r_listing r) n (r_dirty r) (r_prog r) (r_pc r) (r_tr r) (r_tron r) (r_entry r)
-       (r_stack r) (r_vars r) (r_state r) (r_cont r) (r_cont_pc r) (r_col r) (r_rand r) (r_fns r) (r_ent r).
+       (r_stack r) (r_slen r) (r_vars r) (r_state r) (r_cont r) (r_cont_pc r) (r_col r) (r_rand r) (r_fns r) (r_ent r).
 Definition set_data_pos (r : rt) (a : N) : rt :=
   let p := r_prog r in
   let l := pg_link p in
@@ -120,19 +122,20 @@ Definition rmod (f : rt -> rt) : RM unit := fun r => (f r, Ok tt).
 
 (* Stack::push / pop / pop_n *)
 Definition push (v : val) : RM unit :=
-  fun r => let r' := set_stack r (v :: r_stack r) in
-           (r', if MAX_POOL <? lenN (r_stack r') then err E_OutOfMemory else Ok tt).
+  fun r => let r' := set_stack_len r (v :: r_stack r) (r_slen r + 1) in
+           (r', if MAX_POOL <? r_slen r' then err E_OutOfMemory else Ok tt).
 Definition pop : RM val :=
   fun r => match r_stack r with
-           | v :: s => (set_stack r s, Ok v)
+           | v :: s => (set_stack_len r s (r_slen r - 1), Ok v)
            | [] => (r, err E_Internal)
            end.
 Definition pop2 : RM (val * val) :=
   rdo two <~ pop ;; rdo one <~ pop ;; rret (one, two).
 (* pop_n: the n topmost values, oldest first *)
 Definition pop_n (n : Z) : RM (list val) :=
-  fun r => if (n <? 0)%Z || (lenN (r_stack r) <? Z.to_N n) then (r, err E_Internal)
-           else (set_stack r (skipnN (Z.to_N n) (r_stack r)), Ok (rev (firstnN (Z.to_N n) (r_stack r)))).
+  fun r => if (n <? 0)%Z || (r_slen r <? Z.to_N n) then (r, err E_Internal)
+           else (set_stack_len r (skipnN (Z.to_N n) (r_stack r)) (r_slen r - Z.to_N n),
+                 Ok (rev (firstnN (Z.to_N n) (r_stack r)))).
 Definition pop_vec : RM (list val) :=
   rdo v <~ pop ;;
   match v with
@@ -143,7 +146,7 @@ Definition pop_1_push (f : val -> res val) : RM unit :=
   rdo v <~ pop ;; rdo x <~ rlift (f v) ;; push x.
 Definition pop_2_push (f : val -> val -> res val) : RM unit :=
   rdo p <~ pop2 ;; rdo x <~ rlift (f (fst p) (snd p)) ;; push x.
-Definition stack_is_full (r : rt) : bool := (MAX_POOL - 32) <? lenN (r_stack r).
+Definition stack_is_full (r : rt) : bool := (MAX_POOL - 32) <? r_slen r.
 
 Definition prog_line_for (r : rt) (a : N) : option N := line_number_for (l_syms (pg_link (r_prog r))) a.
 Definition cur_line (r : rt) : option N := prog_line_for r (r_pc r - 1).
@@ -158,7 +161,7 @@ Definition do_clear : RM unit :=
     let w i := (o_entropy O (k + i) mod 16777216) + 1 in
     let r1 := set_rand r (w 0, w 1, w 2) (k + 3) in
     let r2 := set_data_pos r1 0 in
-    let r3 := set_stack r2 [] in
+    let r3 := set_stack_len r2 [] 0 in
     let r4 := set_vars r3 vars_empty in
     let r5 := set_fns r4 [] in
     (set_cont r5 StStopped, Ok tt).
@@ -342,8 +345,8 @@ Fixpoint do_next (fuel : nat) (name : str) : RM unit :=
                    | _ => do_next f name
                    end
              | _ => do_next f name
-             end) (set_stack r s1)
-        | _ :: s1 => (set_stack r s1, err E_NextWithoutFor)
+             end) (set_stack_len r s1 (r_slen r - 1))
+        | _ :: s1 => (set_stack_len r s1 (r_slen r - 1), err E_NextWithoutFor)
         | [] => (r, err E_NextWithoutFor)
         end
   end.
@@ -540,7 +543,7 @@ Definition exec_op (has_ind_errors : bool) (op : opcode) : RM (option event) :=
   | OpLoadRun => ev (do_load true false)
   | OpNew => ev do_new
   | OpOn => none do_on
-  | OpNext name => none (fun r => do_next (S (List.length (r_stack r))) name r)
+  | OpNext name => none (fun r => do_next (S (N.to_nat (r_slen r))) name r)
   | OpPrint => ev do_print
   | OpRead => none do_read
   | OpRenum => ev do_renum
@@ -765,7 +768,7 @@ Definition enter_indirect (r : rt) (l : line) : res rt :=
   else match fst l, snd l with
        | Some n, [] =>
            Ok (set_dirty (set_listing r1 (with_lines (r_listing r1) (lines_remove (ls_lines (r_listing r1)) n)))
-                         (lines_has (ls_lines (r_listing r1)) n))
+                         (r_dirty r1 || lines_has (ls_lines (r_listing r1)) n))
        | Some n, toks =>
            Ok (set_dirty (set_listing r1 (with_lines (r_listing r1) (lines_insert (ls_lines (r_listing r1)) n toks))) true)
        | None, _ => Ok r1
